@@ -19,9 +19,9 @@ Open Scope Z_scope.
 
 (* ---- values ------------------------------------------------------------------------------- *)
 (* a function value: a lambda (c_named = false) or a named function with its parameters
-   (a count of stack items, or a name); c_arity is the attribute `.arity` / the declared arity of the lambda template,
+   (a count of stack items, a name, or `*`: the count itself is popped); c_arity is the attribute `.arity` / the declared arity of the lambda template,
    c_stored the attribute `.stored_arity` set by the modifiers ƒ ɖ *)
-Inductive param := PNum (n : nat) | PName (x : str).
+Inductive param := PNum (n : nat) | PName (x : str) | PStar.
 Record closure := mkClo {
   c_named : bool; c_params : list param; c_arity : Z; c_stored : option Z; c_body : list struct }.
 
@@ -118,6 +118,16 @@ Fixpoint popn (k : nat) (s : state) : state * list value :=
   end.
 
 Definition arity_nat (z : Z) : nat := Z.to_nat z.
+
+(* wrapify(arg_stack, pop(arg_stack, 1, ctx=ctx), ctx=ctx): the count comes from the stack; range(count)
+   of a negative count is empty; a count that is not a number is outside the domain, and so is one
+   above 5000 *)
+Definition pop_star (s : state) : option (state * list value) :=
+  let (s1, v) := pop1 s in
+  match v with
+  | VInt z => if z >? 5000 then None else Some (popn (Z.to_nat z) s1)
+  | _ => None
+  end.
 
 (* ---- numbers as digit lists (helpers.digits on an int) ----------------------------------------- *)
 Definition digit_vals (z : Z) : list value :=
@@ -661,12 +671,11 @@ Fixpoint assign (n : str) (v : value) (env : list (str * value)) : list (str * v
   | (k, w) :: r => if str_eqb k n then (k, v) :: r else (k, w) :: assign n v r
   end.
 
-(* the parameters of a named function that the core covers: a decimal count pops that many
-   items onto the function's stack; a name pops one item into the local VAR_<name>;
-   "*" is outside the core (its template reads `stack` before assigning it) *)
+(* the parameters of a named function: a decimal count pops that many items onto the
+   function's stack; a name pops one item into the local VAR_<name>; "*" pops the count *)
 Definition param_of (p : str) : option param :=
   if all_ascii_digits p then Some (PNum (N.to_nat (dec_value p 0%N)))
-  else if str_eqb p [42%N] then None
+  else if str_eqb p [42%N] then Some PStar
   else if name_ok (keep re_keep_fnparam p) then Some (PName (keep re_keep_fnparam p))
   else None.
 
@@ -768,8 +777,7 @@ Definition finish (app : app_t) (f : flag) (s : state) : xres state :=
    keeps every assignment (variable set, named loop variable, function definition) at the
    top level, where the name is a global of the exec namespace.  Outside the core and
    listed in the report: string / character / compressed literals, the ghost variable and
-   `_` names, break / recurse (X x), `*` parameters, triadic modifiers, elements outside
-   `core_keys`.  `core_ok indef` is the part the evaluators themselves enforce (ENotCore);
+   `_` names, break / recurse (X x), triadic modifiers, elements outside `core_keys`.  `core_ok indef` is the part the evaluators themselves enforce (ENotCore);
    `scope_ok` adds the static name discipline under which the machine's treatment of Python
    scoping is right: a named parameter is a local of its function, a nested def reading it
    would go through a closure cell, which the model does not have. *)
@@ -818,7 +826,7 @@ Fixpoint scope_ok (loc hid : list str) (x : struct) : bool :=
   | SWhile c b => forallb (scope_ok loc hid) c && forallb (scope_ok loc hid) b
   | SFnDef _ ps b =>
       match mapM param_of ps with
-      | Some l => forallb (scope_ok (flat_map (fun p => match p with PName x => [x] | PNum _ => [] end) l) (hid ++ loc)) b
+      | Some l => forallb (scope_ok (flat_map (fun p => match p with PName x => [x] | _ => [] end) l) (hid ++ loc)) b
       | None => false
       end
   | SLambda _ b => forallb (scope_ok [] (hid ++ loc)) b
@@ -838,7 +846,7 @@ Definition core_program (p : list struct) : bool :=
 Definition params_of (ps : list str) : option (list param) := mapM param_of ps.
 Definition mk_named (ps : list param) (body : list struct) : closure := mkClo true ps 0 None body.
 Definition param_names (ps : list param) : list str :=
-  flat_map (fun p => match p with PName x => [x] | PNum _ => [] end) ps.
+  flat_map (fun p => match p with PName x => [x] | _ => [] end) ps.
 
 (* running a statement list: the first abnormal outcome ends it *)
 Fixpoint seq_run (step : struct -> state -> xres state) (p : list struct) (s : state) : xres state :=
